@@ -408,7 +408,7 @@ static int g_kmax;
 static void ph_sets(void *u) {
     size_t lo = g_dom.n * mc_wid / mc_nw, hi = g_dom.n * (mc_wid + 1) / mc_nw;
     for (size_t i = lo; i < hi; i++) {
-        if ((i & 7) == 0 && mc_expired()) return;
+        if (mc_tick(7)) return;
         uint64_t h = g_dom.v[i];
         int res = spec_res(h), kmax = res == 0 ? 1 : res == 1 ? 2 : g_kmax;
         mc_states(1);
